@@ -1,16 +1,19 @@
 #!/usr/bin/env python3
 """Copy confirmed round-2 sub-agent changes from /tmp/mut2/<P>/_mut into seeded/<P>-r2m<k>/ (patch.diff, demo.rs, notes.md, meta.json)."""
 import json, os, re, shutil, glob
-conf = json.load(open('/var/tmp/mutres/confirm2.json'))
+BASE = os.environ.get('MUT_BASE', '/tmp/mut2')
+LABEL = os.environ.get('MUT_LABEL', 'r2')
+ROUND = int(os.environ.get('MUT_ROUND', '2'))
+conf = json.load(open(os.environ.get('MUT_OUT', '/var/tmp/mutres/confirm2.json')))
 n = 0
-for P in sorted(os.path.basename(d) for d in glob.glob('/tmp/mut2/C??')):
+for P in sorted(os.path.basename(d) for d in glob.glob(BASE + '/C??')):
     for k in (1, 2, 3):
-        src = '/tmp/mut2/%s/_mut' % P
+        src = BASE + '/%s/_mut' % P
         c = conf.get('%s/m%d' % (P, k))
         if not c or not os.path.exists('%s/m%d.diff' % (src, k)):
             continue
         ok = c.get('applies') and c.get('suite_passes_with_change') and c.get('demo_fails_with_change') and c.get('demo_passes_without')
-        sid = '%s-r2m%d' % (P, k)
+        sid = '%s-%sm%d' % (P, LABEL, k)
         if not ok:
             print('NOT CONFIRMED, skipped:', sid, c)
             continue
@@ -23,8 +26,8 @@ for P in sorted(os.path.basename(d) for d in glob.glob('/tmp/mut2/C??')):
         first = [l.strip('#* -') for l in notes.splitlines() if l.strip()]
         diff = open(d + '/patch.diff').read()
         files = sorted(set(re.findall(r'^\+\+\+ b/(\S+)', diff, re.M)))
-        meta = {'property': P, 'round': 2,
-                'origin': 'sub-agent given only the text of the property and a scratch worktree (/tmp/mut2/%s, removed afterwards); asked for corners a verification effort might overlook' % P,
+        meta = {'property': P, 'round': ROUND,
+                'origin': 'sub-agent given only the text of the property and a scratch worktree (%s/%s, removed afterwards); %s' % (BASE, P, 'asked for corners a verification effort might overlook' if ROUND == 2 else 'asked for changes that need two cooperating sites or a multi-step history of calls'),
                 'files_changed': files, 'summary': ' '.join(first[:2])[:300], 'needs_to_manifest': 'see notes.md (written by the sub-agent)',
                 'confirmed_by_me': {'how': 'tools/confirm_mutants.py in the scratch worktree: git apply; cargo test --workspace --offline; copy demo into tests/ and run it; git checkout -- src; run the demo again',
                                     'suite_passes_with_change': True, 'demo_fails_with_change': True, 'demo_passes_without': True, 'demo_cmd': c.get('demo_cmd'),
